@@ -42,7 +42,7 @@ const gocvC02Assets = `{
 	"topics": [{"uuid": "472a7a73-96cb-4736-b567-056d987cc5b4", "name": "General"}]
 }`
 
-func gocvC02Run(batch bool, restart bool, urn string) (out []string, err error) {
+func gocvC02Run(batch bool, restart bool, urn string, seen bool) (out []string, err error) {
 	uuids.SetGenerator(uuids.NewSeededGenerator(123456, time.Now))
 	dates.SetNowFunc(dates.NewSequentialNow(time.Date(2018, 7, 6, 12, 30, 0, 123456789, time.UTC), time.Second))
 	defer uuids.SetGenerator(uuids.DefaultGenerator)
@@ -54,6 +54,10 @@ func gocvC02Run(batch bool, restart bool, urn string) (out []string, err error) 
 	env := envs.NewBuilder().Build()
 	contact := flows.NewEmptyContact(sa, "Bob", "eng", nil)
 	contact.AddURN(urns.URN("tel:+12065551212"), nil)
+	if seen {
+		// a contact that has been seen before: the trigger's contact and the session's clone of it start from the same value
+		contact.SetLastSeenOn(time.Date(2018, 7, 1, 8, 0, 0, 0, time.UTC))
+	}
 	mb := triggers.NewBuilder(env, assets.NewFlowReference("1b462ce8-983a-4393-b133-e15a0efdb70c", "Restart"), contact).Manual()
 	if batch {
 		mb = mb.AsBatch()
@@ -103,9 +107,13 @@ func TestGocvReplayRestart(t *testing.T) {
 		t.Skip("no replay file")
 	}
 	for _, batch := range []bool{true, false} {
-		for _, urn := range []string{"tel:+12065551212", "mailto:Ben.Haggerty@Example.com"} {
-			live, err1 := gocvC02Run(batch, false, urn)
-			restored, err2 := gocvC02Run(batch, true, urn)
+		for _, urn := range []string{"tel:+12065551212", "mailto:Ben.Haggerty@Example.com", "SEEN"} {
+			seen := urn == "SEEN"
+			if seen {
+				urn = "tel:+12065551212"
+			}
+			live, err1 := gocvC02Run(batch, false, urn, seen)
+			restored, err2 := gocvC02Run(batch, true, urn, seen)
 			if err1 != nil || err2 != nil {
 				continue
 			}
